@@ -54,6 +54,12 @@ theorem content_accounts_for_every_byte (s : Stream) (i0 : Nat) (prog : List (St
         simp [hs, this, ih]
     · simp [hs, ih]
 
+/-- C14 ("a command that cannot be started is reported as an error"): every way of not starting —
+    no command, not found, not executable, a directory, an unusable working directory — is an
+    error, and only those -/
+theorem unstartable_command_is_an_error (c : StartClass) : runCommandErrors c = true ↔ c ≠ .startable := by
+  cases c <;> simp [runCommandErrors]
+
 /-- the original discipline (stdout to EOF, then stderr) can deadlock: the repaired defect -/
 theorem sequential_drain_can_deadlock :
     ∃ st, Reach .seq 2 (init [(.err, 3)]) st ∧ final st = false ∧ stepsFrom .seq 2 st = [] :=
